@@ -8,6 +8,7 @@ CONSTANT Pads = {0, 1, 3}
 CONSTANT SzAs = {0, 1, 3}
 CONSTANT SzBs = {2}
 CONSTANT WrapDefect = FALSE
+CONSTANT FullW = 0
 INIT Init
 NEXT Next
 INVARIANT ClassDecides
